@@ -28,7 +28,7 @@ def run(ctx, rep):
     rch = rep.rule("chain", "file -> lines (read().splitlines(), utf-8-sig) -> framing -> section route -> dispatcher -> builders: every link "
                             "hands the lines on unchanged", floor=10)
     from .chain import check_chain
-    check_chain(ctx, rch, "instrument", strict=True)
+    check_chain(ctx, rch, "instrument", strict=True, recognisers=("chartparse.instrument.NoteEvent.ParsedData",))
     rh = rep.rule("states", "HOPOState has three distinct members STRUM / HOPO / TAP (no aliasing)", floor=3)
     hc = ctx.cls("chartparse.instrument.HOPOState")
     tab = ctx.fold.enum_table(hc)
